@@ -113,3 +113,54 @@ Definition unprotected (s : race_summary) : list string :=
            existsb (fun a => String.eqb (a_loc a) x && negb (a_locked a) && negb (a_startup a)) s) (locs s)).
 Definition obligation (known : list string) (s : race_summary) : bool :=
   forallb (fun x => existsb (String.eqb x) known) (unprotected s).
+
+(* ---------------- from the obligation to happens-before ---------------- *)
+Lemma in_dedup x l : In x (dedup l) <-> In x l.
+Proof.
+  induction l as [|y l IH]; cbn [dedup]; [tauto|].
+  destruct (existsb (String.eqb y) l) eqn:E.
+  - rewrite IH. split; [intros H; right; exact H|]. intros [<-|H]; [|exact H].
+    apply existsb_exists in E as [z [Hz Ez]]. apply String.eqb_eq in Ez. now subst.
+  - cbn [In]. rewrite IH. tauto.
+Qed.
+
+(* what the obligation says about two accesses of the summary *)
+Lemma obligation_conflicting_locked known s a1 a2 :
+  obligation known s = true -> In a1 s -> In a2 s -> a_loc a1 = a_loc a2 -> ~ In (a_loc a1) known ->
+  a_startup a1 = false -> a_startup a2 = false -> (a_write a1 = true \/ a_write a2 = true) ->
+  a_locked a1 = true /\ a_locked a2 = true.
+Proof.
+  intros O H1 H2 E NK S1 S2 W. unfold obligation in O. rewrite forallb_forall in O.
+  assert (NU : ~ In (a_loc a1) (unprotected s)).
+  { intros U. apply O in U. apply existsb_exists in U as [k [Hk Ek]]. apply String.eqb_eq in Ek. subst k. exact (NK Hk). }
+  unfold unprotected in NU. rewrite in_dedup, filter_In in NU.
+  assert (Hl : In (a_loc a1) (locs s)) by (unfold locs; apply in_map; exact H1).
+  assert (Hw : existsb (fun a => String.eqb (a_loc a) (a_loc a1) && a_write a && negb (a_startup a)) s = true).
+  { apply existsb_exists. destruct W as [W|W]; [exists a1|exists a2]; (split; [assumption|]).
+    - now rewrite String.eqb_refl, W, S1.
+    - now rewrite <- E, String.eqb_refl, W, S2. }
+  assert (Hu : existsb (fun a => String.eqb (a_loc a) (a_loc a1) && negb (a_locked a) && negb (a_startup a)) s = false).
+  { destruct (existsb _ s) eqn:X in |- *; [|reflexivity]. exfalso. apply NU. split; [exact Hl|]. now rewrite Hw, X. }
+  assert (Hall : forall a, In a s -> a_loc a = a_loc a1 -> a_startup a = false -> a_locked a = true).
+  { intros a Ha El Sa. destruct (a_locked a) eqn:L; [reflexivity|]. exfalso.
+    assert (existsb (fun a => String.eqb (a_loc a) (a_loc a1) && negb (a_locked a) && negb (a_startup a)) s = true).
+    { apply existsb_exists. exists a. split; [exact Ha|]. now rewrite El, String.eqb_refl, L, Sa. }
+    congruence. }
+  split; [apply Hall; auto | apply Hall; auto].
+Qed.
+
+(* the obligation and the discipline together: two conflicting serving accesses that the summary lists for a location
+   outside the committed list are ordered by a release/acquire pair in every execution that performs them the way the
+   summary says (under the lock where it says "locked") *)
+Theorem obligation_sound known s l pre mid post t1 t2 x a1 a2 :
+  obligation known s = true -> In a1 s -> In a2 s -> a_loc a1 = a_loc a2 -> ~ In (a_loc a1) known ->
+  a_startup a1 = false -> a_startup a2 = false -> (a_write a1 = true \/ a_write a2 = true) ->
+  wf l None (pre ++ Acc t1 x (a_write a1) :: mid ++ Acc t2 x (a_write a2) :: post) -> t1 <> t2 ->
+  (a_locked a1 = true -> after l None pre = Some t1) ->
+  (a_locked a2 = true -> after l None (pre ++ Acc t1 x (a_write a1) :: mid) = Some t2) ->
+  exists a b c, mid = (a ++ Rel t1 l :: b ++ Acq t2 l :: c)%list.
+Proof.
+  intros O H1 H2 E NK S1 S2 W Wf N L1 L2.
+  destruct (obligation_conflicting_locked known s a1 a2 O H1 H2 E NK S1 S2 W) as [K1 K2].
+  exact (lockset_sound l pre mid post t1 t2 x _ _ Wf N (L1 K1) (L2 K2)).
+Qed.
